@@ -31,21 +31,30 @@ type hashmap struct {
 	linear  bool // a symbolic scalar key was used: all entries live in one bucket
 }
 
-// symScalarKey reports whether k is (or wraps) a symbolic integer/boolean.
+// symScalarKey reports whether k is (or wraps) a symbolic integer/boolean, or
+// wraps (inside an interface or struct key) a string with symbolic bytes.
+// A bare string key is hashed by length instead (hashKey).
 func symScalarKey(k value) bool {
 	switch k := k.(type) {
 	case symInt, symBool:
 		return true
 	case iface:
-		return symScalarKey(k.v)
+		return symInnerKey(k.v)
 	case structure:
 		for _, f := range k {
-			if symScalarKey(f) {
+			if symInnerKey(f) {
 				return true
 			}
 		}
 	}
 	return false
+}
+
+func symInnerKey(k value) bool {
+	if _, ok := k.(sstring); ok {
+		return true
+	}
+	return symScalarKey(k)
 }
 
 func (m *hashmap) bucket(k value) int {
@@ -85,6 +94,18 @@ func scalarEq(t types.Type, a, b value) bool {
 			}
 		}
 		return true
+	}
+	_, as := a.(sstring)
+	_, bs := b.(sstring)
+	if as || bs {
+		switch t := seqEqTerm(byteSeq(a), byteSeq(b)); t {
+		case "true":
+			return true
+		case "false":
+			return false
+		default:
+			return X.decide(t)
+		}
 	}
 	if isSym(a) || isSym(b) {
 		switch r := binop(token.EQL, t, a, b).(type) {
